@@ -12,7 +12,7 @@ PLAN = {
                 gen_q=("continue,stop,cancel,single,empty,waves,storm,wait,cancelfeed,dup", 60), gen_t=("continue,stop,cancel,single,empty,waves,storm,wait,cancelfeed,dup", 1500)),
     "C07": dict(mc_q=[("seq", 3, 1, 2, True), ("gated", 3, 2, 2, True), ("conc", 2, 2, 2, False)],
                 mc_t=[("seq", 4, 1, 3, True), ("gated", 3, 2, 2, True), ("gated", 4, 3, 1, True), ("conc", 3, 2, 2, False)],
-                gen_q=("continue,waves,storm,wait,rebudget,fbhold,dup", 90), gen_t=("continue,waves,storm,wait,rebudget,fbhold,dup", 2600)),
+                gen_q=("continue,waves,storm,wait,rebudget,fbhold,dup,innerflow", 90), gen_t=("continue,waves,storm,wait,rebudget,fbhold,dup,innerflow", 2600)),
     "C08": dict(mc_q=[("gated", 3, 2, 1, True), ("conc", 2, 2, 2, False)],
                 mc_t=[("gated", 4, 3, 1, True), ("conc", 3, 2, 2, False), ("conc", 3, 3, 1, False)],
                 gen_q=("barrier,continue,rerun,backoff,storm", 60), gen_t=("barrier,continue,stop,rerun,backoff,storm", 1000)),
@@ -97,7 +97,7 @@ def collect(pid, tier, seed, d, binp):
     def small(r):
         c = r["cfg"]
         return (r.get("fam") == "batch" and c["via"] != "flow" and c["n"] <= 6 and c["c"] <= 3 and c["sched"] != "barrier"
-                and not any(e["ev"] in ("stuck", "hang", "panic", "routed") for e in r["h"]))
+                and not any(e["ev"] in ("stuck", "hang", "panic", "routed", "innerbad") for e in r["h"]))
     tv_n, tv_ok, tv_states, tv_trans = trace_validate(d, "TraceBatch", hist, keep=small, shards=8, limit=1500 if tier == "quick" else 12000)
     states += tv_states
     transitions += tv_trans
